@@ -374,7 +374,7 @@ def run(chk):
 
     quick = chk.tier == "quick"
     chk.rule = (
-        "Reorder.tla over all coverage subsets x payload assignments x permutations of 4 glyphs; a template font with "
+        "Reorder.tla over all coverage subsets x payload assignments x sequences of two permutations of 4 glyphs; a template font with "
         "every lookup type/format of the property (24 subtable kinds) permuted by the real reorder_glyphs under "
         "random permutations keeping .notdef first (thorough: 2000), saved, reloaded; name-keyed meaning and coverage "
         "order compared.  Non-trivial = the permutation is not the identity; distinct by permutation."
@@ -385,6 +385,12 @@ def run(chk):
         chk.tlc_violation(res, "Reorder")
     if res.vacuous_actions():
         raise MachineryError(f"vacuous: {res.vacuous_actions()}")
+    for cfg, what in (("Reorder_noparallel.cfg", "a rule that forgets its parallel array: expected to violate MeaningAction"),
+                      ("Reorder_memo.cfg", "sort permutation remembered from the first call: expected to violate Sorted in the second")):
+        neg = common.run_tlc("Reorder", cfg, timeout=900, coverage=False)
+        chk.add_tlc(neg, f"{cfg[:-4]} ({what})")
+        if neg.ok:
+            raise MachineryError(f"{cfg} holds: the property it should break is vacuous")
     chk.exhaustive = True
     data = template_font()
     base = TTFont(io.BytesIO(data), lazy=False)
@@ -408,7 +414,7 @@ def run(chk):
             font[tag]
         chk.case(key=tuple(order), nontrivial=order != GLYPHS)
         chk.traces_validated += 1
-        # Reorder.tla's MeaningAction speaks about every step of a sequence of permutations: a third of the cases
+        # Reorder.tla's MeaningAction speaks about every call in a sequence of calls on one font: a third of the cases
         # permute the SAME font object two or three times (saving in between), ending in `order`
         chain = [order]
         if k % 3 == 0:
